@@ -293,9 +293,10 @@ def c01(prop, tier, seed):
     total = 1500 if tier == "quick" else 30000
     nproc = 3 if tier == "quick" else 6
     chunk = max(1, (total + 31) // 32)
-    flavours = [({}, {}), ({"junk_mb": 64}, {}), ({}, {"RPV_PADDING": "x" * 3000}), ({"junk_mb": 7}, {"RPV_PADDING": "y" * 17}),
-                ({"junk_mb": 129}, {}), ({}, {"MALLOC_ARENA_MAX": "1"})]
-    flavour_names = ["plain", "64MiB-junk-first", "env+3000B", "7MiB-junk+env+17B", "129MiB-junk-first", "MALLOC_ARENA_MAX=1"]
+    flavours = [({}, {}), ({"junk_mb": 64, "reverse": 1}, {}), ({}, {"RPV_PADDING": "x" * 3000}), ({"junk_mb": 7}, {"RPV_PADDING": "y" * 17}),
+                ({"junk_mb": 129, "reverse": 1}, {}), ({}, {"MALLOC_ARENA_MAX": "1"})]
+    flavour_names = ["plain", "64MiB-junk-first+cases-in-reverse-order", "env+3000B", "7MiB-junk+env+17B",
+                     "129MiB-junk-first+cases-in-reverse-order", "MALLOC_ARENA_MAX=1"]
     import concurrent.futures as cf
     jobs = []
     s = 0
